@@ -317,3 +317,96 @@ Proof.
   cbn zeta. split; [repeat constructor; cbn; intuition discriminate|].
   split; [vm_compute; reflexivity | discriminate].
 Qed.
+
+(* ------------------------------------------------------------------ *)
+(* the model's decision, under the bookkeeping equalities              *)
+(* ------------------------------------------------------------------ *)
+(* If, when the state-level model visits u, its bookkeeping agrees with the edge multiset —
+   m = total weight, degree = K_[u], Stot[bc] = K_C, Stot[own] = K_D (D: u's community without u),
+   the candidate weights are the weights [between] u and the communities — then a move it decides
+   (best_com <> own) strictly increases Newman's modularity.  The equalities are exactly the
+   invariants L1-L3; the correspondence run evaluates them on every case (observation 77). *)
+Section ModelMove.
+  Context {T : Type}.
+  Variable teqb : T -> T -> bool.
+  Hypothesis teqb_spec : forall x y, teqb x y = true <-> x = y.
+
+  Lemma ok_some_inj : forall {X} (a b : X), @Ok (option X) (Some a) = Ok (Some b) -> a = b.
+  Proof. intros X a b H. inversion H. reflexivity. Qed.
+
+  Lemma gain_of_undirected_inv : forall di m res c wt g,
+    gain_of di m res false c wt = Ok (Some g) ->
+    exists st, nth_error (stot di) c = Some st /\ ~ m == 0 /\ g == 2 * wt - res * (st * degree di) / m.
+  Proof.
+    intros di m res c wt g H. unfold gain_of, vec_get, unwrap_at in H.
+    destruct (nth_error (stot di) c) as [st|] eqn:E; cbn [bind] in H; [|discriminate].
+    destruct (Qeq_bool m 0) eqn:Em; [discriminate|].
+    apply ok_some_inj in H. exists st. split; [reflexivity|]. split.
+    - intro Hm. apply Qeq_bool_iff in Hm. congruence.
+    - rewrite <- H. apply Qred_correct.
+  Qed.
+
+  Lemma gain_of_undirected_some : forall di m res c wt st,
+    nth_error (stot di) c = Some st -> ~ m == 0 ->
+    exists g, gain_of di m res false c wt = Ok (Some g) /\ g == 2 * wt - res * (st * degree di) / m.
+  Proof.
+    intros di m res c wt st E Hm. unfold gain_of, vec_get, unwrap_at. rewrite E. cbn [bind].
+    destruct (Qeq_bool m 0) eqn:Em; [apply Qeq_bool_iff in Em; contradiction|].
+    eexists. split; [reflexivity | apply Qred_correct].
+  Qed.
+
+  Theorem model_move_increases_Q :
+    forall (es : list (T * T * Q)) gamma (u : T) C D rest di m own bc w2c tie sC sD,
+      NoDup (map fst w2c) ->
+      update_best_com own w2c di m gamma false = Ok (bc, tie) -> bc <> own ->
+      ~ In u C -> ~ In u D -> 0 < total_w es ->
+      m == total_w es -> degree di == K_of teqb es [u] ->
+      nth_error (stot di) bc = Some sC -> sC == K_of teqb es C ->
+      nth_error (stot di) own = Some sD -> sD == K_of teqb es D ->
+      (forall w, In (bc, w) w2c -> w == between teqb es u C) ->
+      (forall w, In (own, w) w2c -> w == between teqb es u D) ->
+      (~ In own (map fst w2c) -> between teqb es u D == 0) ->
+      0 <= gamma * (K_of teqb es D * K_of teqb es [u]) ->
+      newman teqb false es gamma ((u :: D) :: C :: rest) < newman teqb false es gamma (D :: (u :: C) :: rest).
+  Proof.
+    intros es gamma u C D rest di m own bc w2c tie sC sD Hnd Hupd Hne HC HD Hpos Hm Hdeg HsC HKC HsD HKD HwC HwD HwD0 Hnn.
+    apply (accepted_move_increases_Q teqb teqb_spec); try assumption.
+    destruct (move_only_if_strictly_better di m gamma false own w2c bc tie Hnd Hupd Hne)
+      as [wt [g [Hin [Hg [Hg0 [_ Hown]]]]]].
+    apply gain_of_undirected_inv in Hg as Hg'. destruct Hg' as [st [Est [Hm0 Hgeq]]].
+    rewrite HsC in Est. inversion Est. subst st. clear Est.
+    assert (HgC : g == gain_u teqb es gamma u C).
+    { unfold gain_u. rewrite Hgeq, (HwC wt Hin), HKC, Hdeg, Hm. reflexivity. }
+    rewrite <- HgC.
+    destruct (in_dec Nat.eq_dec own (map fst w2c)) as [Hmem|Hnmem].
+    - apply in_map_iff in Hmem. destruct Hmem as [[o wo] [Ho Hino]]. cbn in Ho. subst o.
+      destruct (gain_of_undirected_some di m gamma own wo sD HsD Hm0) as [go [Hgo Hgoeq]].
+      specialize (Hown wo go Hino Hgo).
+      assert (HgD : go == gain_u teqb es gamma u D).
+      { unfold gain_u. rewrite Hgoeq, (HwD wo Hino), HKD, Hdeg, Hm. reflexivity. }
+      rewrite <- HgD. exact Hown.
+    - unfold gain_u. rewrite (HwD0 Hnmem).
+      apply Qle_lt_trans with 0; [|exact Hg0].
+      assert (Hdiv : 0 <= gamma * (K_of teqb es D * K_of teqb es [u]) / total_w es).
+      { apply Qle_shift_div_l; [exact Hpos | lra]. }
+      lra.
+  Qed.
+End ModelMove.
+
+Example model_move_nonvacuous :
+  let es : list (Z * Z * Q) := [((1, 2)%Z, 1); ((2, 3)%Z, 1); ((3, 4)%Z, 1)] in
+  let di := mkdi [] [] [] [] [(0%nat, 1); (1%nat, 2); (2%nat, 2); (3%nat, 1)] [1; 0; 2; 1] 2 0 0 in
+  let w2c := [(0%nat, 1%Q); (2%nat, 1%Q)] in
+  NoDup (map fst w2c) /\
+  update_best_com 1 w2c di 3 1 false = Ok (0%nat, false) /\
+  3 == total_w es /\ degree di == K_of Z.eqb es [2%Z] /\
+  nth_error (stot di) 0 = Some 1 /\ 1 == K_of Z.eqb es [1%Z] /\
+  nth_error (stot di) 1 = Some 0 /\ 0 == K_of Z.eqb es [] /\
+  1 == between Z.eqb es 2%Z [1%Z] /\ between Z.eqb es 2%Z [] == 0 /\
+  ~ In 1%nat (map fst w2c).
+Proof.
+  cbn zeta. split; [repeat constructor; cbn; intuition discriminate|].
+  split; [vm_compute; reflexivity|].
+  repeat (split; [vm_compute; reflexivity|]).
+  cbn. intuition discriminate.
+Qed.
